@@ -16,35 +16,41 @@ META = {
     "property_id": "C03",
     "design_ref": "DESIGN.md section 5, C03",
     "technique": "Coq proof (incidence tables = brute-force incidences by list induction over the cell list; border "
-                 "classification; orientation identity by ring/lra over R and Z; index maps inverse; cache discipline) "
-                 "+ translator-regenerated face tables / index expressions / comparisons / orientation test / det_3x3 / "
-                 "lazy-guard tables + kernel-checked correspondence batches on generated tetrahedral meshes with random "
-                 "query scripts",
-    "level_text": "Machine-checked Coq theorems, for every tetrahedral cell list (any size, numbering, vertex order), about an "
-                  "executable model of volume.py's connectivity, of the face/edge completion and of both boundary "
-                  "extractors; the convention tables, the index expression C[:i]+C[i+1:], the comparisons, the orientation "
-                  "test with det_3x3 and the lazy-cache guard tables are regenerated from the source on every run. "
-                  "FULL: incidence tables equal brute force (face_to_cells, cell_to_face with i-th face opposite i-th "
-                  "vertex, cell_to_cell under conformity, vertex_to_cell, edge_to_face, edge_to_cell as sets), no "
-                  "exception while building them; border classification of faces/vertices/edges and exact partitions; "
-                  "boundary closed (every vertex pair lies in an even number of border faces, handshake proof); "
-                  "orientation identity and outwardness over R and over Z for _BoundaryConnectivity, outwardness of the "
-                  "standalone extractor when cells are positive in mouette's determinant; vertex/face index maps "
-                  "inverse, edge index maps total both ways and inverse, no exception while building the boundary "
-                  "connectivity; closedness transported to both extracted surfaces, exactly two faces per surface edge "
-                  "under the stated manifold-boundary guard; no AttributeError for any query order; rotational order "
-                  "around an edge for the CELLS (for every start cell: never raises nor runs out of fuel, returns a "
-                  "permutation of the edge's cells/faces, when flagged sorted the cells are duplicate-free with consecutive "
-                  "cells sharing a face through the edge, and it is flagged sorted whenever the mesh is conforming and the "
-                  "cells around the edge are face-connected). PARTIAL (stated in C03_edge_ring's comment): rotational order "
-                  "of the sorted FACE list is only tested. No refuted theorem left: the former known finding (KeyError on "
-                  "an edge whose cells are not face-connected) was repaired in /repo (e464500). "
-                  "The hand-written part of the model is tied to the code by kernel-evaluated "
-                  "correspondence batches on generated meshes with random query scripts.",
+                 "classification; handshake proof of closedness; orientation identity by ring/lra over R and Z; sorting by "
+                 "walk keys; coverage by closure under face adjacency; index dicts; cache discipline) "
+                 "+ translator-regenerated face tables / index expressions / comparisons / orientation tests of BOTH "
+                 "extractors / det_3x3 / dict entries / lazy-guard tables + kernel-checked correspondence batches on generated "
+                 "tetrahedral meshes (with and without faces/edges declared beforehand) with random query scripts",
+    "level_text": "Machine-checked Coq theorems, for every volume M = tetrahedral cell list (any size, numbering, vertex order) "
+                  "plus any faces / edges declared before construction (pairwise distinct triangles EACH LYING IN SOME CELL, "
+                  "pairwise distinct vertex pairs: the guard `tet_mesh`; a declared face lying in no cell is outside - the code "
+                  "lists it as border and _BoundaryConnectivity raises IndexError, shown as an Example, not a theorem), about "
+                  "an executable model of volume.py's connectivity, of the face/edge completion and of both boundary "
+                  "extractors. Regenerated from the source on every run: the three tetrahedron tables, C[:i]+C[i+1:], the "
+                  "comparisons, the orientation test of _BoundaryConnectivity AND of extract_boundary_of_volume (face tuple, "
+                  "guard, flip test, flipped tuple), det_3x3, the m2b/b2m dict entries of both extractors, the lazy-cache "
+                  "guard tables. PROVED (full): incidence tables equal brute force (face_to_cells, cell_to_face with i-th "
+                  "face opposite i-th vertex, cell_to_cell under conformity, vertex_to_cell as the set the double loop "
+                  "collects, edge_to_face, edge_to_cell as sets), no exception while building them; border classification; "
+                  "boundary closed (handshake), transported to both extracted surfaces, exactly two faces per surface edge "
+                  "under the stated guard manifold_boundary; orientation identity over R and Z; every face emitted by EITHER "
+                  "extractor is the border face renumbered and outward for a non-degenerate cell, whatever the cell's "
+                  "orientation or the declared order of the face, and the two extractors agree (repair 832f457: the standalone "
+                  "extractor copied the stored order = inward for right-handed cells); vertex/face dicts as written are "
+                  "inverse; edge dicts total both ways and inverse; no AttributeError for any call order. PARTIAL "
+                  "(C03_edge_ring_partial): rotational order around an edge is proved for the CELLS (never raises, "
+                  "permutation of the edge's cells/faces, sorted flag => consecutive cells share a face through the edge, "
+                  "conforming + face-connected => sorted flag) but the order of the sorted FACE list is only tested. "
+                  "STRUCTURAL / TESTED ONLY: the partitions boundary ++ interior (two halves of one filter in the model); "
+                  "that answers do not depend on the query order (the model is pure; scripts of 3-25 calls in random order "
+                  "test it); set enumeration orders. The hand-written part of the model is tied to the code by "
+                  "kernel-evaluated correspondence batches.",
     "level_note": "Trusted: Coq kernel + vm_compute; the c03 translator; the correspondence harness (mesh generators, "
                   "driver canonicalisation); CPython dict/set/list semantics (set enumeration order enters the model as a "
-                  "parameter: the observed order must be a permutation of the model's set); float arithmetic of det_3x3 is "
-                  "exact on the small integer coordinates used; `Reals` axioms only in the orientation theorems over R.",
+                  "parameter: the observed order must be a permutation of the model's set; the start cell of a sorted ring "
+                  "is any cell of the edge); float arithmetic of det_3x3 is exact on the small integer coordinates used; "
+                  "`Reals` axioms only in the orientation theorems over R. Orientation: 'outward' = right-hand normal of "
+                  "(a,b,c) points away from the cell's fourth vertex, independent of any sign convention for cells.",
 }
 
 HEADER = """From Coq Require Import String List Arith Bool ZArith.
@@ -157,7 +163,12 @@ def gen_case(rng, big=False):
     sort = rng.random() < 0.75
     kind = rng.choice(KINDS)
     n_ops = rng.choice([3, 8, 15, 25])
-    case = {"V": mesh["V"], "C": mesh["C"], "kind": kind, "sort": sort,
+    F0, E0 = G.declare(rng, mesh)
+    if F0:
+        tags.append("declared-faces")
+    if E0:
+        tags.append("declared-edges")
+    case = {"V": mesh["V"], "C": mesh["C"], "F0": F0, "E0": E0, "kind": kind, "sort": sort,
             "script": gen_script(rng, mesh, n_ops, manifold, sort), "tags": tags, "edge_manifold": manifold}
     return case
 
@@ -218,9 +229,9 @@ def case_term(case, obs):
             if a[0] == "bc" and wellformed_maps(a[1], ["m2b_v", "b2m_v", "m2b_f", "b2m_f", "m2b_e", "b2m_e"]):
                 d = a[1]
                 vs = [v for _, v in d["b2m_v"]]
-                bc = ("(Some {| b_vs := %s; b_m2b_v := %s; b_faces := %s; b_edges := %s; b_m2b_f := %s; b_b2m_f := %s; "
+                bc = ("(Some {| b_vs := %s; b_m2b_v := %s; b_b2m_v := %s; b_faces := %s; b_edges := %s; b_m2b_f := %s; b_b2m_f := %s; "
                       "b_m2b_e := %s; b_b2m_e := %s |})"
-                      % (nl(vs), pairs(d["m2b_v"]), nll(d["faces"]), nll(d["edges"]), pairs(d["m2b_f"]),
+                      % (nl(vs), pairs(d["m2b_v"]), pairs(d["b2m_v"]), nll(d["faces"]), nll(d["edges"]), pairs(d["m2b_f"]),
                          pairs(d["b2m_f"]), pairs(d["m2b_e"]), pairs(d["b2m_e"])))
             elif a[0] == "err":
                 qs.append("(QBoundaryEdges, AErr)")     # the constructor goes through boundary_edges
@@ -230,24 +241,25 @@ def case_term(case, obs):
             if a[0] == "ex" and wellformed_maps(a[1], ["m2b_v", "b2m_v"]):
                 d = a[1]
                 vs = [v for _, v in d["b2m_v"]]
-                ex = ("(Some {| x_vs := %s; x_m2b := %s; x_faces := %s; x_edges := %s |})"
-                      % (nl(vs), pairs(d["m2b_v"]), nll(d["faces"]), nll(d["edges"])))
+                ex = ("(Some {| x_vs := %s; x_m2b := %s; x_b2m := %s; x_faces := %s; x_edges := %s |})"
+                      % (nl(vs), pairs(d["m2b_v"]), pairs(d["b2m_v"]), nll(d["faces"]), nll(d["edges"])))
             else:
                 qs.append("(QBoundaryFaces, AErr)")
         else:
             qs.append("(%s%s, %s)" % (QC[op[0]], "".join(" %d" % x for x in op[1:]), ans_term(a)))
             if len(op) > 1:
                 qs[-1] = "(" + "(%s%s)" % (QC[op[0]], "".join(" %d" % x for x in op[1:])) + ", " + ans_term(a) + ")"
-    return ("{| k_nv := %d; k_cells := %s; k_pos := %s; k_sorted := %s; k_faces := %s; k_edges := %s; "
-            "k_queries := %s; k_bc := %s; k_ex := %s |}"
+    return ("{| k_nv := %d; k_cells := %s; k_pos := %s; k_sorted := %s; k_faces0 := %s; k_edges0 := %s; k_faces := %s; "
+            "k_edges := %s; k_queries := %s; k_bc := %s; k_ex := %s |}"
             % (len(case["V"]), nll(case["C"]), coq_list([zt(p) for p in case["V"]]), coq_bool(case["sort"]),
+               nll(case.get("F0") or []), nll(case.get("E0") or []),
                nll(obs.get("faces", [])), nll(obs.get("edges", [])), coq_list(qs), bc, ex))
 
 
 # ---------------------------------------------------------------------- running
 def run_batch(cases, timeout=900):
     nsh = max(1, min(core.NCPU, len(cases) // 12))
-    payloads = [{"cases": [{k: c[k] for k in ("V", "C", "kind", "sort", "script")} for c in cases[i::nsh]]} for i in range(nsh)]
+    payloads = [{"cases": [{k: c.get(k) for k in ("V", "C", "F0", "E0", "kind", "sort", "script")} for c in cases[i::nsh]]} for i in range(nsh)]
     results = core.run_impl_parallel(DRIVER, payloads, timeout=timeout)
     obs = [None] * len(cases)
     for i, r in enumerate(results):
@@ -257,7 +269,7 @@ def run_batch(cases, timeout=900):
 
 
 def run_one(case):
-    return core.run_impl(DRIVER, {"cases": [{k: case[k] for k in ("V", "C", "kind", "sort", "script")}]}, timeout=120)["obs"][0]
+    return core.run_impl(DRIVER, {"cases": [{k: case.get(k) for k in ("V", "C", "F0", "E0", "kind", "sort", "script")}]}, timeout=120)["obs"][0]
 
 
 def which_fail(cands, key):
@@ -265,7 +277,7 @@ def which_fail(cands, key):
     if not cands:
         return []
     try:
-        obs = core.run_impl(DRIVER, {"cases": [{k: c[k] for k in ("V", "C", "kind", "sort", "script")} for c in cands]},
+        obs = core.run_impl(DRIVER, {"cases": [{k: c.get(k) for k in ("V", "C", "F0", "E0", "kind", "sort", "script")} for c in cands]},
                             timeout=300)["obs"]
     except Exception:
         return []
@@ -276,7 +288,10 @@ def drop_cell(case, i):
     C = [c for j, c in enumerate(case["C"]) if j != i]
     used = sorted({v for c in C for v in c})
     ren = {v: k for k, v in enumerate(used)}
-    return {"V": [case["V"][v] for v in used], "C": [[ren[v] for v in c] for c in C]}
+    cs = [set(c) for c in C]
+    F0 = [[ren[v] for v in f] for f in (case.get("F0") or []) if any(set(f) <= c for c in cs)]
+    E0 = [[ren[v] for v in e] for e in (case.get("E0") or []) if any(set(e) <= c for c in cs)]
+    return {"V": [case["V"][v] for v in used], "C": [[ren[v] for v in c] for c in C], "F0": F0, "E0": E0}
 
 
 def shrink(case, key, deadline):
@@ -308,7 +323,7 @@ def shrink(case, key, deadline):
         cands = []
         for i in range(len(cur["C"])):
             m = drop_cell(cur, i)
-            cands.append(dict(cur, V=m["V"], C=m["C"], script=full_script(m, first=first)))
+            cands.append(dict(cur, V=m["V"], C=m["C"], F0=m["F0"], E0=m["E0"], script=full_script(m, first=first)))
         w = which_fail(cands, key)
         if not w:
             break
@@ -372,7 +387,8 @@ def run(ctx):
         for key, msg in O.check(c, o):
             fails.append((idx, key, msg))
     ctx.obligation("oracle: every observed answer equals the brute-force inspection of the cell list; extracted surfaces "
-                   "closed / exact / outward / maps inverse", "oracle-on-implementation", True, "%d failing observations" % len(fails))
+                   "closed / exact / outward / maps inverse", "oracle-on-implementation",
+                   all(ctx.known(k) for _, k, _ in fails), "%d failing observations: %s" % (len(fails), sorted({k for _, k, _ in fails})[:12]))
 
     bad = []
     if b["model_ok"]:
@@ -393,7 +409,8 @@ def run(ctx):
             ctx.violation(msg, {"case": case, "class": key}, key=key)
             continue
         if len(ctx.violations) >= 4:
-            ctx.notes.append("further failure class not reported separately: %s: %s" % (key, msg))
+            # every failure class is reported; only the first four are shrunk
+            ctx.violation(msg, {"case": case, "observed": obs[idx], "class": key}, key=key)
             continue
         ctx.log("oracle failure (%s): %s -- shrinking" % (key, msg))
         try:
@@ -408,7 +425,7 @@ def run(ctx):
         ctx.violation(m2[0] if m2 else msg, {"case": small, "observed": ob, "class": key}, key=key)
     if bad and not fails:
         for i in bad[:3]:
-            ctx.log("model/implementation disagreement on case %d: %s" % (i, json.dumps({k: cases[i][k] for k in ("V", "C", "kind", "sort", "script")})))
+            ctx.log("model/implementation disagreement on case %d: %s" % (i, json.dumps({k: cases[i].get(k) for k in ("V", "C", "F0", "E0", "kind", "sort", "script")})))
             ctx.log("   observed: " + json.dumps(obs[i])[:1500])
         ctx.notes.append("model and implementation disagree on cases %s although the oracle accepts the implementation's answers" % bad[:10])
     if bad is None:
@@ -422,7 +439,7 @@ def replay(ctx, data):
         return 1
     ob = run_one(case)
     fl = O.check(case, ob)
-    print("case:", json.dumps({k: case[k] for k in ("V", "C", "kind", "sort", "script")}))
+    print("case:", json.dumps({k: case.get(k) for k in ("V", "C", "F0", "E0", "kind", "sort", "script")}))
     print("observed:", json.dumps(ob)[:3000])
     for k, m in fl:
         print("FAILS [%s]: %s" % (k, m))
